@@ -23,7 +23,13 @@ func (g *Gen) Sched(focus ...string) simrt.SchedCfg {
 	case x < 0.08:
 		// a node that is slow all the time: dense yields and many short stalls, so that replies arrive
 		// while the code that asked for them is still between two statements
-		return simrt.SchedCfg{Density: 0.3 + g.Float()*0.7, Overlap: true, StallProb: 0.25, MaxStall: time.Duration(g.Range(300, 5000)) * time.Microsecond, MaxStalls: 60, Sticky: []float64{0, 0.8, 0.95}[g.Intn(3)]}
+		c = simrt.SchedCfg{Density: 0.3 + g.Float()*0.7, Overlap: true, StallProb: 0.25, MaxStall: time.Duration(g.Range(300, 5000)) * time.Microsecond, MaxStalls: 60, Sticky: []float64{0, 0.8, 0.95}[g.Intn(3)]}
+		// the budget is gone within the first exchanges of a session: in two thirds of these runs the
+		// slowness begins later, somewhere in the first 80 % of the horizon (resolved when the run starts)
+		if g.Bool(0.66) {
+			c.StallAfterFrac = g.Float() * 0.8
+		}
+		return c
 	case x < 0.3:
 		return simrt.SchedCfg{}
 	case x < 0.6:
@@ -43,6 +49,9 @@ func (g *Gen) Sched(focus ...string) simrt.SchedCfg {
 		c.StallProb = []float64{0.002, 0.01, 0.05}[g.Intn(3)]
 		c.MaxStall = []time.Duration{200 * time.Microsecond, 5 * time.Millisecond, 50 * time.Millisecond}[g.Intn(3)]
 		c.MaxStalls = g.Range(2, 12)
+		if g.Bool(0.5) {
+			c.StallAfterFrac = g.Float() * 0.8
+		}
 	}
 	return c
 }
